@@ -1137,18 +1137,22 @@ Proof.
   apply refkind_eqb_eq in E. simpl in E. subst rk'. exists act. exact Hx.
 Qed.
 
-Theorem doc_remove_wf d s s' r : doc_remove P d h s = (s', inl r) -> WF s -> WF s'.
+Definition detached (d : positive) (s : state) (e : elem) (x : doc) : state :=
+  put_elem (put_doc s d (set_members x (ekind e) (erase_first h (members x (ekind e))))) h (set_parent e None).
+
+Lemma detach_wfx d s e x : WF s -> get_elem s h = Some e -> get_doc s d = Some x ->
+  mem h (members x (ekind e)) = true ->
+  WFx ex (detached d s e x) /\
+  (forall a, parent (detached d s e x) a = if Pos.eqb h a then None else parent s a) /\
+  (forall a, kindof (detached d s e x) a = kindof s a) /\
+  (forall a rk, refs (detached d s e x) a rk = refs s a rk) /\
+  (forall d' k', listed (detached d s e x) d' k' =
+                 if Pos.eqb d d' && kind_eqb k' (ekind e) then erase_first h (listed s d (ekind e)) else listed s d' k') /\
+  kindof s h = Some (ekind e) /\ parent s h = Some d.
 Proof.
-  unfold doc_remove. intros H W. apply bind_ok in H. destruct H as (e & s0 & H0 & H).
-  apply m_get_ok in H0. destruct H0 as [-> He].
-  apply bind_ok in H. destruct H as (x & s0 & H0 & H). apply m_getdoc_ok in H0. destruct H0 as [-> Hx].
-  destruct (mem h (members x (ekind e))) eqn:Em; simpl in H; [|inversion H; subst; auto].
-  apply bind_ok in H. destruct H as ([] & s1 & H1 & H). inversion H1; subst s1. clear H1.
-  apply bind_ok in H. destruct H as ([] & s2 & H2 & H). apply m_modify_ok in H2. destruct H2 as (e1 & He1 & ->).
-  rewrite get_putdoc in He1. rewrite He in He1. inversion He1; subst e1. clear He1.
-  apply bind_ok in H. destruct H as ([] & s3 & H3 & H4). inversion H4; subst. clear H4.
+  intros W He Hx Em.
   set (k := ekind e) in *.
-  set (s2 := put_elem (put_doc s d (set_members x k (erase_first h (members x k)))) h (set_parent e None)) in *.
+  set (s2 := detached d s e x). unfold detached in s2. fold k in s2.
   pose proof W as [[M C] R].
   assert (Hl : listed s d k = members x k) by (unfold listed; rewrite Hx; reflexivity).
   assert (Hin : In h (listed s d k)) by (rewrite Hl; apply mem_In; exact Em).
@@ -1189,6 +1193,23 @@ Proof.
       + intros a rk y. rewrite R2, !K2. apply (ro_typed _ R).
       + intros a rk. rewrite R2. apply (ro_nodup _ R).
       + intros a rk. rewrite R2. apply (ro_single _ R). }
+  exact (conj W2 (conj P2 (conj K2 (conj R2 (conj L2 (conj Hkh Hph)))))).
+Qed.
+
+Theorem doc_remove_wf d s s' r : doc_remove P d h s = (s', inl r) -> WF s -> WF s'.
+Proof.
+  unfold doc_remove. intros H W. apply bind_ok in H. destruct H as (e & s0 & H0 & H).
+  apply m_get_ok in H0. destruct H0 as [-> He].
+  apply bind_ok in H. destruct H as (x & s0 & H0 & H). apply m_getdoc_ok in H0. destruct H0 as [-> Hx].
+  destruct (mem h (members x (ekind e))) eqn:Em; simpl in H; [|inversion H; subst; auto].
+  apply bind_ok in H. destruct H as ([] & s1 & H1 & H). inversion H1; subst s1. clear H1.
+  apply bind_ok in H. destruct H as ([] & s2 & H2 & H). apply m_modify_ok in H2. destruct H2 as (e1 & He1 & ->).
+  rewrite get_putdoc in He1. rewrite He in He1. inversion He1; subst e1. clear He1.
+  apply bind_ok in H. destruct H as ([] & s3 & H3 & H4). inversion H4; subst. clear H4.
+  destruct (detach_wfx d s e x W He Hx Em) as (W2 & P2 & K2 & R2 & L2 & Hkh & Hph).
+  fold (detached d s e x) in H3.
+  set (k := ekind e) in *. set (s2 := detached d s e x) in *.
+  pose proof W as [[M C] R].
   destruct (plan_post k d (remove_plan P k) (incl_refl _) _ _ _ H3 W2) as (W3 & S3 & N3).
   destruct W3 as (M3 & C3 & R3).
   apply WF_WFx. split; auto. split; auto.
